@@ -195,6 +195,95 @@ impl<T: Bridge> Bridge for Streamed<T> {
     }
 }
 
+/// written through the slice codec (`impl BinarySerializer for [T]`, hand-written count + items,
+/// byte form for u8), read back as a vector
+pub struct SliceOf<T>(pub Vec<T>);
+impl<T: BinarySerializer + 'static> BinarySerializer for SliceOf<T> {
+    fn serialize<O: desert::BinaryOutput>(
+        &self,
+        context: &mut desert::SerializationContext<O>,
+    ) -> desert::Result<()> {
+        self.0.as_slice().serialize(context)
+    }
+}
+impl<T: BinaryDeserializer> BinaryDeserializer for SliceOf<T> {
+    fn deserialize(context: &mut desert::DeserializationContext<'_>) -> desert::Result<Self> {
+        Ok(SliceOf(Vec::<T>::deserialize(context)?))
+    }
+}
+impl<T: Bridge> Bridge for SliceOf<T> {
+    fn ty() -> Ty {
+        seq_ty(T::ty(), SeqKind::Vec)
+    }
+    fn register(reg: &mut Registry) {
+        T::register(reg)
+    }
+    fn to_val(&self) -> Val {
+        seq_to_val(T::ty() == Ty::U8, self.0.iter())
+    }
+    fn from_val(v: &Val) -> Self {
+        SliceOf(seq_from_val(v))
+    }
+}
+
+/// written through the `str` codec and through a reference (`impl BinarySerializer for &T`)
+pub struct StrOf(pub String);
+impl BinarySerializer for StrOf {
+    fn serialize<O: desert::BinaryOutput>(
+        &self,
+        context: &mut desert::SerializationContext<O>,
+    ) -> desert::Result<()> {
+        let s: &str = self.0.as_str();
+        (&s).serialize(context)
+    }
+}
+impl BinaryDeserializer for StrOf {
+    fn deserialize(context: &mut desert::DeserializationContext<'_>) -> desert::Result<Self> {
+        Ok(StrOf(String::deserialize(context)?))
+    }
+}
+impl Bridge for StrOf {
+    fn ty() -> Ty {
+        Ty::Str
+    }
+    fn to_val(&self) -> Val {
+        Val::Str(self.0.clone())
+    }
+    fn from_val(v: &Val) -> Self {
+        StrOf(v.as_str().to_string())
+    }
+}
+
+/// written through `Rc<[T]>` (`impl BinarySerializer for Rc<T: ?Sized>` over the slice codec)
+pub struct RcSlice<T>(pub Rc<[T]>);
+impl<T: BinarySerializer + 'static> BinarySerializer for RcSlice<T> {
+    fn serialize<O: desert::BinaryOutput>(
+        &self,
+        context: &mut desert::SerializationContext<O>,
+    ) -> desert::Result<()> {
+        self.0.serialize(context)
+    }
+}
+impl<T: BinaryDeserializer> BinaryDeserializer for RcSlice<T> {
+    fn deserialize(context: &mut desert::DeserializationContext<'_>) -> desert::Result<Self> {
+        Ok(RcSlice(Vec::<T>::deserialize(context)?.into()))
+    }
+}
+impl<T: Bridge> Bridge for RcSlice<T> {
+    fn ty() -> Ty {
+        seq_ty(T::ty(), SeqKind::Vec)
+    }
+    fn register(reg: &mut Registry) {
+        T::register(reg)
+    }
+    fn to_val(&self) -> Val {
+        seq_to_val(T::ty() == Ty::U8, self.0.iter())
+    }
+    fn from_val(v: &Val) -> Self {
+        RcSlice(seq_from_val::<T>(v).into())
+    }
+}
+
 impl Bridge for Duration {
     fn ty() -> Ty {
         Ty::Duration
